@@ -232,7 +232,14 @@ class G:
                         wn = "RANK"
                 # (aliased: the partition/order keys handed to the builder carry aliases of their own, as when one aliased
                 #  expression object is projected and reused as window key; an alias has no place inside OVER(...))
-                sel.append({"e": {"k": "win", "n": wn, "a": self.col(srcs, "int"),
+                frame = None
+                if wn in ("SUM", "COUNT") and all(s_["k"] == "table" for s_ in srcs) and r.random() < 0.6:
+                    # a ROWS frame needs a total window order to be deterministic: unique key of every source appended
+                    worder = worder + [[{"k": "col", "src": s_["alias"] or s_["t"], "name": "id"}, "ASC"] for s_ in srcs]
+                    lo = r.choice([["P", None], ["P", 0], ["P", 1], ["P", 2], ["C"]])
+                    hi = r.choice([["F", None], ["F", 0], ["F", 1], ["C"], None])
+                    frame = ["ROWS", lo, hi]
+                sel.append({"e": {"k": "win", "n": wn, "a": self.col(srcs, "int"), "frame": frame,
                                   "part": part, "order": worder, "aliased": r.random() < 0.4}, "as": self.alias("w"), "window": True})
         q = {"k": "select", "from": [srcs[0]] + extra_from, "joins": joins, "select": sel, "distinct": (not grouped) and r.random() < 0.15,
              "where": self.crit(srcs, 2) if r.random() < 0.6 else None, "group": group,
@@ -367,7 +374,15 @@ def ref_expr(e, q=None):
         arg = "" if e["n"] in ("ROW_NUMBER", "RANK") else ref_expr(e["a"], q)
         part = ("PARTITION BY " + ", ".join(ref_expr(p, q) for p in e["part"]) + " ") if e["part"] else ""
         order = "ORDER BY " + ", ".join("%s %s" % (ref_expr(o, q), d) for o, d in e["order"])
-        return "%s(%s) OVER (%s%s)" % (e["n"], arg, part, order)
+        frame = ""
+        if e.get("frame"):
+            def edge(x):
+                if x[0] == "C":
+                    return "CURRENT ROW"
+                return "%s %s" % ("UNBOUNDED" if x[1] is None else x[1], "PRECEDING" if x[0] == "P" else "FOLLOWING")
+            kind, lo, hi = e["frame"]
+            frame = " %s %s" % (kind, edge(lo)) if hi is None else " %s BETWEEN %s AND %s" % (kind, edge(lo), edge(hi))
+        return "%s(%s) OVER (%s%s%s)" % (e["n"], arg, part, order, frame)
     if k in ("and", "or"):
         return "(%s %s %s)" % (ref_expr(e["l"], q), k.upper(), ref_expr(e["r"], q))
     if k == "not":
@@ -527,6 +542,14 @@ class PB:
             f = f.over(*[al(self.expr(p, q, sel), i) for i, p in enumerate(e["part"])])
             for i, (o, d) in enumerate(e["order"]):
                 f = f.orderby(al(self.expr(o, q, sel), 5 + i), order=r["Order"].asc if d == "ASC" else r["Order"].desc)
+            if e.get("frame"):
+                def edge(x):
+                    if x[0] == "C":
+                        return r["an.CURRENT_ROW"]
+                    cls = r["an.Preceding"] if x[0] == "P" else r["an.Following"]
+                    return cls() if x[1] is None else cls(x[1])
+                kind, lo, hi = e["frame"]
+                f = f.rows(edge(lo)) if hi is None else f.rows(edge(lo), edge(hi))
             return f
         if k in ("and", "or"):
             l, rr = self.expr(e["l"], q, sel), self.expr(e["r"], q, sel)
